@@ -48,9 +48,11 @@ def annotate(ops, mask, cache):
                 prog.append({"op": "new", "h": op["out"], "recipe": ["str", "__refused__"]})
                 continue
             ddump = engine.reference([{"op": "new", "h": "d", "recipe": d}], 0, mask, cache).get("obj")
-            if rid in all_ids or not isinstance(ddump, dict) or M.validate(ddump):
-                # id collides with a nested id / the result is not well-defined: the property promises
-                # neither acceptance nor refusal; not gated and never used again
+            if rid == bdump["id"] or not isinstance(ddump, dict) or M.validate(ddump):
+                # the directly constructed result is not well-defined (e.g. the id names a nested node with
+                # another definition, or the configurator itself): the property promises neither acceptance
+                # nor refusal; not gated and never used again.  (A rule that merely *shares* an identical nested
+                # sub-proposition gives a well-defined model and is gated like any other.)
                 expect[k] = "ungated"
                 prog.append({"op": "new", "h": op["out"], "recipe": ["str", "__ungated__"]})
                 continue
@@ -126,6 +128,10 @@ def rule_for(g, h, used):
         c = cicje_rule(g)
         if c:
             return c
+    if r < 0.46:
+        c = g.complement_rule(h, used)
+        if c:
+            return c
     if r < 0.55:
         return g.compound(1, used, kinds=["ccAny", "ccXor"], leaves=leaves)
     if r < 0.72:
@@ -180,6 +186,8 @@ def gen_c18(rng, oracle_factory, index, tier="quick"):
                 if ok:
                     versions.append(out)
                     depth[out] = depth[v] + 1
+                    if g.recipe_of(v) is not None:
+                        g.handles[out]["recipe"] = ["Stingy", R.children(g.recipe_of(v)) + [rule], g.handles[v]["dump"]["id"]]
                 # immediately re-observe the original (must be unchanged)
                 if rng.random() < 0.7:
                     qop, tags = g.op_for(v, rng.choice(["default_prios", "ge_polyhedron", "to_json", "flatten", "evaluate", "select"]))
